@@ -296,6 +296,27 @@ func main() {
 					}
 				}
 			}
+			// (A') explicitly requested paths that do not exist are visits too: they count against the limit
+			for _, lim := range []int{1, 2, 3} {
+				o := runScan(scanCfg{roots: []*memfs.Node{root}, maxInodes: lim, cancelAt: -1, twoEx: true, paths: []string{"nope-1", "nope-2", "nope-3", "nope-4"}})
+				r.Evals.Add(1)
+				r.Nontrivial.Add(1)
+				inodes := 0
+				for _, e := range o.events {
+					if e.kind == "inode" {
+						inodes++
+					}
+				}
+				rp := map[string]any{"tree": ts, "max_inodes": lim, "paths_to_extract": "four paths that do not exist"}
+				switch {
+				case o.panicked != "":
+					r.Violation("panic:"+o.panicked, o.panicked, rp)
+				case inodes > lim:
+					r.Violation("inode-limit-exceeded", fmt.Sprintf("tree %s MaxInodes=%d, four requested paths that do not exist: %d inode visits", ts, lim, inodes), rp)
+				case o.status != plugin.ScanStatusFailed:
+					r.Violation("inode-limit-hit-but-not-failed", fmt.Sprintf("tree %s MaxInodes=%d, four requested paths that do not exist: status %s", ts, lim, o.statusS), rp)
+				}
+			}
 			// (B) size limit around every file size present
 			sizes := map[int]bool{}
 			memfs.Walk(root, func(_ string, nd *memfs.Node) {
@@ -513,7 +534,7 @@ func main() {
 	imagePart(r)
 	containerLimits(r)
 	hugeSizes(r)
-	r.Finish(fmt.Sprintf("every tree with <=%d nodes (dirs a,b; p1.txt size 1, p2.txt size 5 required by two extractors, junk): (A) every MaxInodes in 0..n+1 with 1 and 2 roots, gitignore handling off and on; (B) MaxFileSize in {0,1,s-1,s,s+1} for every file size s, and through a symlink to the 5-byte file with ReadSymlinks on; (B'') Stat sizes 2^31-1..2^63-1 x limits around the same boundaries; (C) cancellation at every event of the uncancelled run (inode visit, Extract, AfterExtractorRun, standalone extractor, detector; and before Scan) for 0/1/2 standalone extractors and detectors (also two standalone extractors without detectors and two detectors without standalone extractors), whole-tree walk and explicit-path mode (first directory + first required file requested), gitignore handling off and on, context cancelled or expired (DeadlineExceeded); (D') container scans of 2-3 layers holding a package list with sizes L-1, L, L+1, 3L per layer: no extraction the scan causes (incl. layer attribution) receives a file over MaxFileSize; (D) images: file size L-1,L,L+1 x MaxFileBytes L in {1,2,5,4096} x layer position x older version underneath. non-trivial = limit actually hit / work actually cut", maxNodes), complete)
+	r.Finish(fmt.Sprintf("every tree with <=%d nodes (dirs a,b; p1.txt size 1, p2.txt size 5 required by two extractors, junk): (A) every MaxInodes in 0..n+1 with 1 and 2 roots, gitignore handling off and on, and with four requested paths that do not exist; (B) MaxFileSize in {0,1,s-1,s,s+1} for every file size s, and through a symlink to the 5-byte file with ReadSymlinks on; (B'') Stat sizes 2^31-1..2^63-1 x limits around the same boundaries; (C) cancellation at every event of the uncancelled run (inode visit, Extract, AfterExtractorRun, standalone extractor, detector; and before Scan) for 0/1/2 standalone extractors and detectors (also two standalone extractors without detectors and two detectors without standalone extractors), whole-tree walk and explicit-path mode (first directory + first required file requested), gitignore handling off and on, context cancelled or expired (DeadlineExceeded); (D') container scans of 2-3 layers holding a package list with sizes L-1, L, L+1, 3L per layer: no extraction the scan causes (incl. layer attribution) receives a file over MaxFileSize; (D) images: file size L-1,L,L+1 x MaxFileBytes L in {1,2,5,4096} x layer position x older version underneath. non-trivial = limit actually hit / work actually cut", maxNodes), complete)
 }
 
 // hugeSizes: (B”) file sizes around the 32-bit and 63-bit boundaries (reported by Stat; the
